@@ -19,6 +19,8 @@ POOL = collections.OrderedDict(
         ("idx_ad", ("indexed", "chi2", "idx_ad", 4, 2, ["y-abs"])),
         ("xy_bc", ("xy", "chi2", "m_bc", 3, 1, ["y-abs"])),
         ("xy_ab_x", ("xy", "chi2", "m_ab", 4, 2, ["y-abs", "x-abs"])),
+        ("xy_ab_noerr", ("xy", "chi2", "m_ab", 4, 1, [])),  # chi2 member without any uncertainty (no determinant term in its cost)
+        ("xy_ab_relm", ("xy", "chi2", "m_ab", 4, 2, ["y-abs", "y-rel-model", "y-abs-model"])),
         ("hist", ("hist", "nll", "normal", 5, 0, [])),
         ("unbinned", ("unbinned", "nll", "normal", 5, 0, [])),
     ]
